@@ -4,7 +4,9 @@
 (* frame the mock node received (records of `vh-driver c18 e2e`).          *)
 (*  - a timestamp set explicitly on the statement / batch is what every    *)
 (*    frame of that request carries (also the one re-sent after a          *)
-(*    re-preparation, also a batch rebuilt around an unprepared statement);*)
+(*    re-preparation, also a batch rebuilt around an unprepared statement, *)
+(*    also a paged request, a statement the node marked as LWT, a batch    *)
+(*    whose members carry explicit timestamps of their own);               *)
 (*  - otherwise the frames carry a generated one, the same on every frame  *)
 (*    of the request, and along the caller's sequence of requests the      *)
 (*    generated timestamps strictly increase.                              *)
@@ -14,13 +16,14 @@ EXTENDS Integers, Sequences, FiniteSets, Json, IOUtils, TLC
 Rec == ndJsonDeserialize(IOEnv.TRACE)
 VARIABLE l
 Lt(a, b) == a[1] < b[1] \/ (a[1] = b[1] /\ a[2] < b[2])
+PreparedOps == {"execute", "execute_page", "execute_iter", "execute_lwt", "batch_prepared", "batch_mixed", "batch_member"}
 StepOK(s) ==
   /\ s.ok = 1 /\ Len(s.frames) >= 1
   /\ \A i \in 1..Len(s.frames) : s.frames[i].has_ts = 1
   /\ \A i \in 1..Len(s.frames) : s.frames[i].ts = s.frames[1].ts
   /\ (s.step.explicit = 1 => s.frames[1].ts = s.want)
   \* an eviction really caused the re-preparation path
-  /\ (s.step.evict = 1 /\ s.step.op # "query" => Len(s.frames) >= 2)
+  /\ (s.step.evict = 1 /\ s.step.op \in PreparedOps => Len(s.frames) >= 2)
 ScriptOK(r) ==
   /\ r.start_err = ""
   /\ \A i \in 1..Len(r.steps) : StepOK(r.steps[i])
